@@ -30,6 +30,9 @@ import (
 	"encoding/hex"
 	"fmt"
 	"io"
+	"net"
+	"os"
+	"runtime/debug"
 	"sort"
 	"strings"
 	"testing"
@@ -38,6 +41,19 @@ import (
 
 	"github.com/pion/logging"
 )
+
+// vARConn: the transport of the direct-drive association; nothing is ever read from or written to it (no loops run),
+// but an inbound ABORT makes the association close it
+type vARConn struct{ closed bool }
+
+func (c *vARConn) Read(b []byte) (int, error)         { return 0, io.EOF }
+func (c *vARConn) Write(b []byte) (int, error)        { return len(b), nil }
+func (c *vARConn) Close() error                       { c.closed = true; return nil }
+func (c *vARConn) LocalAddr() net.Addr                { return nil }
+func (c *vARConn) RemoteAddr() net.Addr               { return nil }
+func (c *vARConn) SetDeadline(t time.Time) error      { return nil }
+func (c *vARConn) SetReadDeadline(t time.Time) error  { return nil }
+func (c *vARConn) SetWriteDeadline(t time.Time) error { return nil }
 
 type vARObj struct {
 	s   *Stream
@@ -318,6 +334,9 @@ func (h *vAR) inbound(raw []byte) (res string) {
 	defer func() {
 		if r := recover(); r != nil {
 			res = "PANIC"
+			if os.Getenv("VERIF_TRACE") != "" {
+				fmt.Fprintf(os.Stderr, "panic: %v\n%s\n", r, debug.Stack())
+			}
 			// the association lock may be left held by the panicking handler: make it usable for the state walk
 			h.a.lock.TryLock()
 			h.a.lock.Unlock()
@@ -487,7 +506,7 @@ func (h *vAR) exec(op []string) {
 	case "new":
 		h.closeAssoc()
 		cfg := &Config{
-			NetConn:                   &vEnd{},
+			NetConn:                   &vARConn{},
 			LoggerFactory:             &logging.DefaultLoggerFactory{DefaultLogLevel: logging.LogLevelDisabled, ScopeLevels: map[string]logging.LogLevel{}, Writer: io.Discard},
 			MaxReceiveBufferSize:      u(2),
 			maxReassemblyQueueEntries: u(5),
@@ -1214,6 +1233,9 @@ func vARHostile(h *vAR, r *vrand, nops int, tsn uint32, il bool, pair int) {
 			t = tail - uint32(r.n(10)) // around the highest TSN received (often a duplicate)
 		}
 		x := r.n(100)
+		if st := h.a.getState(); st != established && st != shutdownSent && r.chance(25) {
+			h.do("ar setstate 3") // do not stay for long in a state that ignores DATA
+		}
 		rawPhase := i >= nops*85/100 // packets the model cannot follow come last, so that the model is compared for most of the run
 		if rawPhase && r.chance(30) {
 			x = 99
@@ -1310,7 +1332,7 @@ func vARHostile(h *vAR, r *vrand, nops int, tsn uint32, il bool, pair int) {
 			h.do("ar reset %d %d %s", r.n(5), cum+uint32(r.n(6))-2, r.pickS("none", "1", "1,2", "77"))
 			l.stat("ar.x.reset")
 		case x < 94:
-			h.do("ar setstate %d", r.pick(3, 3, 5, 7, 6, 4, 1, 0))
+			h.do("ar setstate %d", r.pick(3, 3, 5, 7, 7, 6, 4, 1, 0))
 			l.stat("ar.x.setstate")
 		case x < 96:
 			h.do("ar open %d", r.pick(1, 2, 50))
@@ -1352,6 +1374,9 @@ func vARHostile(h *vAR, r *vrand, nops int, tsn uint32, il bool, pair int) {
 	}
 	if !aborted && r.chance(50) {
 		// the sequence ends with a chunk that must be answered with an ABORT
+		if st := h.a.getState(); !isDataReceiveState(st) {
+			h.do("ar setstate 3")
+		}
 		cum := h.a.payloadQueue.getcumulativeTSN()
 		if r.chance(50) {
 			h.do("ar data %d 1 0 0 BE 51 0 0 %s", cum+1, kind)
